@@ -426,12 +426,43 @@ mutant('C18', 'limits-check-only-max', 'frappy/modulebase.py',
 mutant('C18', 'member-write-drops-others', 'frappy/extparams.py',
        "                            valuedict = dict(getattr(self, name))\n                            valuedict[membername] = value",
        "                            valuedict = {m: 0 for m in getattr(self, name)}\n                            valuedict[membername] = value")
+# ---------------------------------------------------------------- C06
+mutant('C06', 'minlen-not-exported', 'frappy/datatypes.py',
+       "        return {'type': 'array', 'minlen': self.minlen, 'maxlen': self.maxlen,",
+       "        return {'type': 'array', 'minlen': 0, 'maxlen': self.maxlen,")
+mutant('C06', 'optional-not-exported', 'frappy/datatypes.py',
+       "        if set(self.optional) != set(self.members):\n            res['optional'] = self.optional\n        return res",
+       "        return res")
+mutant('C06', 'isutf8-not-exported', 'frappy/datatypes.py',
+       "        return self.get_info(type='string')",
+       "        return {k: v for k, v in self.get_info(type='string').items() if k != 'isUTF8'}")
+mutant('C06', 'unexported-still-routed', 'frappy/modulebase.py',
+       "        if accessible.export:\n            self.accessiblename2attr[accessible.export] = name",
+       "        self.accessiblename2attr[accessible.export or ('_' + name)] = name")
+mutant('C06', 'constant-exported-raw', 'frappy/params.py',
+       "            result['constant'] = self.datatype.export_value(self.constant)",
+       "            result['constant'] = self.constant if isinstance(self.constant, (int, float, str, bool, list, dict)) else repr(self.constant)")
+mutant('C06', 'description-changes-with-value', 'frappy/secnode.py',
+       "            mod_desc.update(module.exportProperties())",
+       "            mod_desc.update(module.exportProperties())\n            mod_desc['_calls'] = self.traceback_counter = self.traceback_counter + 1")
+mutant('C06', 'scaled-min-exported-unscaled', 'frappy/datatypes.py',
+       "        return self.get_info(type='scaled',\n                             min=int(round(self.min / self.scale)),",
+       "        return self.get_info(type='scaled',\n                             min=int(round(self.min)),")
+mutant('C06', 'interface-class-all-bases', 'frappy/modulebase.py',
+       "            b.__name__ for b in mycls.__mro__ if b.__name__ in SECoP_BASE_CLASSES][:1]",
+       "            b.__name__ for b in mycls.__mro__ if b.__name__ in SECoP_BASE_CLASSES]")
+mutant('C06', 'enum-members-by-name-only', 'frappy/datatypes.py',
+       "        return {'type': 'enum', 'members': dict((m.name, m.value) for m in self._enum.members)}",
+       "        return {'type': 'enum', 'members': dict((m.name, i) for i, m in enumerate(self._enum.members))}")
 
 
 def run_mutant(prop, name, file, old, new, runs, extra):
     d = tempfile.mkdtemp(prefix='frappy-mut-', dir='/dev/shm')
     try:
-        shutil.copytree('/repo/frappy', os.path.join(d, 'frappy'), ignore=shutil.ignore_patterns('__pycache__'))
+        for sub in ('frappy', 'frappy_demo', 'frappy_mlz', 'frappy_psi', 'frappy_ess', 'cfg'):
+            if os.path.isdir(os.path.join('/repo', sub)):
+                shutil.copytree(os.path.join('/repo', sub), os.path.join(d, sub),
+                                ignore=shutil.ignore_patterns('__pycache__'))
         path = os.path.join(d, file)
         src = open(path, encoding='utf-8').read()
         if src.count(old) != 1:
